@@ -31,6 +31,9 @@ type Enc struct {
 	// UndefinedSlots: a symbol with unknown text may be encoded with the ID of a
 	// slot whose text is undefined (not only 0).
 	UndefinedSlots bool
+	// LSTOpenContent: symbol tables and import descriptors may carry fields a
+	// reader must ignore (including field names without text).
+	LSTOpenContent bool
 }
 
 // NewEnc makes an encoder; nil chooser = canonical.
@@ -510,6 +513,9 @@ func (e *Enc) LST(b []byte, imports []Import, symbols []Slot, appendMode bool) [
 				s = append(s, 0x20|byte(len(mb)))
 				s = append(s, mb...)
 			}
+			if e.LSTOpenContent && e.C.Intn(3) == 0 {
+				s = append(s, [][]byte{{0x80, 0x21, 0x03}, {0x87, 0xB0}}[e.C.Intn(2)]...)
+			}
 			list = e.tag(list, 13, len(s))
 			list = append(list, s...)
 		}
@@ -542,12 +548,19 @@ func (e *Enc) LST(b []byte, imports []Import, symbols []Slot, appendMode bool) [
 		body = e.tag(body, 11, len(list))
 		body = append(body, list...)
 	}
+	if e.LSTOpenContent && e.C.Intn(2) == 0 {
+		// open content: a field whose name has no text ($0), a field a symbol table does not define
+		body = append(body, [][]byte{{0x80, 0x21, 0x01}, {0x84, 0x81, 'x'}, {0x80, 0xB2, 0x81, 'n'}}[e.C.Intn(3)]...)
+	}
 	if e.choose("lst.symbols-before-imports", 3) == 2 {
 		addSymbols()
 		addImports()
 	} else {
 		addImports()
 		addSymbols()
+	}
+	if e.LSTOpenContent && e.C.Intn(2) == 0 {
+		body = append(body, [][]byte{{0x80, 0x0F}, {0x85, 0x21, 0x03}, {0x88, 0x21, 0x02}}[e.C.Intn(3)]...)
 	}
 	var st []byte
 	if len(body) == 1 {
